@@ -324,8 +324,41 @@ def held_guard_violations(body, lock_call, uses, guard_ty=r"MutexGuard|RwLock(Re
     return bad
 
 
-def deep_locals(body, op, depth=14):
-    """locals an operand derives from, following moves/refs and the *first argument* of any call (iterator chains: x.iter().map(..).collect())"""
+def wide_all(body, op, depth=24):
+    """locals reachable backwards through moves/refs, *all* call arguments and aggregate operands (over-approximation used to ask `which parameter does this depend on`)"""
+    out = set()
+    pl = op.get("m") or op.get("c") if isinstance(op, dict) else op
+    if pl is None:
+        return out
+    stack = [(pl[0], depth)]
+    while stack:
+        l, d = stack.pop()
+        if l in out or d <= 0:
+            continue
+        out.add(l)
+        for (bb, j, dpl, rv) in body.defs().get(l, []):
+            ps = []
+            if j == -1:
+                ps = [a_.get("m") or a_.get("c") for a_ in (rv.get("args") or [])]
+            else:
+                r = rv["r"]
+                if r in ("use", "cast", "un", "repeat"):
+                    ps = [rv["o"].get("m") or rv["o"].get("c")]
+                elif r in ("ref", "cfd", "rawptr", "discr"):
+                    ps = [rv["p"]]
+                elif r == "agg":
+                    ps = [o.get("m") or o.get("c") for o in rv["o"]]
+                elif r == "bin":
+                    ps = [rv["a"].get("m") or rv["a"].get("c"), rv["b"].get("m") or rv["b"].get("c")]
+            for p2 in ps:
+                if p2:
+                    stack.append((p2[0], d - 1))
+    return out
+
+
+def deep_locals(body, op, depth=40, wide=False):
+    """locals an operand derives from, following moves/refs and the *first argument* of any call (iterator chains: x.iter().map(..).collect()).
+    wide=True also follows every argument of iterator adapters and the captured variables of closures (`.map(|i| cols[i][row_idx])`)."""
     out = set()
     pl = op.get("m") or op.get("c") if isinstance(op, dict) else op
     if pl is None:
@@ -338,17 +371,26 @@ def deep_locals(body, op, depth=14):
         out.add(l)
         for (bb, j, dpl, rv) in body.defs().get(l, []):
             if j == -1:
-                if rv.get("args"):
-                    p2 = rv["args"][0].get("m") or rv["args"][0].get("c")
+                args = rv.get("args") or []
+                f = rv["f"]
+                name = (f.get("p") if not f.get("virt") else None) or f.get("u") or ""
+                take = args[:1]
+                if wide and re.search(r"Iterator(>)?::|IntoIterator|::iter(_mut)?$|::into_iter$", name):
+                    take = args
+                for a_ in take:
+                    p2 = a_.get("m") or a_.get("c")
                     if p2:
                         stack.append((p2[0], d - 1))
             else:
                 r = rv["r"]
-                p2 = None
+                ps = []
                 if r in ("use", "cast"):
-                    p2 = rv["o"].get("m") or rv["o"].get("c")
+                    ps = [rv["o"].get("m") or rv["o"].get("c")]
                 elif r in ("ref", "cfd", "rawptr"):
-                    p2 = rv["p"]
-                if p2:
-                    stack.append((p2[0], d - 1))
+                    ps = [rv["p"]]
+                elif r == "agg" and wide and rv.get("ak") in ("closure", "coroutine", "tuple"):
+                    ps = [o.get("m") or o.get("c") for o in rv["o"]]
+                for p2 in ps:
+                    if p2:
+                        stack.append((p2[0], d - 1))
     return out
